@@ -162,7 +162,14 @@ class Exec(ExprMixin, CallMixin, BuiltinMixin, StmtMixin, ExecBase):
                 matched = exc
                 break
         short = r.exc.split(".")[-1]
-        if matched is not None:
+        roi = [e for e in c.raises_only_if if self.repo.is_subclass(r.exc, self.exc_qn(e))]
+        if roi:
+            g = truth(self.eval_spec(c.raises_only_if[roi[0]], pre.copy(), entry_env, None, c.module))
+            goal = self._with_regions(c, "raises_only_if[%s]" % roi[0], g, s, env)
+            self.oblige(s, goal, "raises", "only_if[%s]" % roi[0])
+        elif matched is not None and not c.strict:
+            pass  # the exception is allowed; the `raises` clause only forbids a normal return under its condition
+        elif matched is not None:
             g = truth(self.eval_spec(c.raises[matched], pre.copy(), entry_env, None, c.module))
             goal = self._with_regions(c, "raises[%s]" % matched, g, s, env)
             self.oblige(s, goal, "raises", "%s" % matched)
